@@ -40,8 +40,15 @@ def rule_task_alive(ctx, res):
     ok = len(rets) >= 1
     for p in rets:
         lits = [literal(c) for c in p.conds]
-        last = [l for l in lits if l[0] == 'variant' and l[1][0] == 'await' and find_calls(l[1], 'Receiver::<T>::changed')]
-        if not last or last[-1][2] != 1 or not any(is_field_of_param(x[2][0], 'self', 'start_rx') for x in find_calls(last[-1][1], 'Receiver::<T>::changed')):
+        # the last thing learnt about `start_rx.changed().await` on this path is "it failed" (match / is_err() / is_ok())
+        last = []
+        for l in lits:
+            if l[0] == 'variant' and l[1][0] == 'await' and find_calls(l[1], 'Receiver::<T>::changed'):
+                last.append((l, l[2] == 1))
+            elif l[0] == 'bool' and isinstance(l[1], tuple) and l[1][0] == 'call' and l[1][1].split('::')[-1] in ('is_err', 'is_ok') and l[3] is not None \
+                    and isinstance(strip_transparent(l[1][2][0]), tuple) and strip_transparent(l[1][2][0])[0] == 'await' and find_calls(l[1], 'Receiver::<T>::changed'):
+                last.append((l, (l[1][1].split('::')[-1] == 'is_err') == bool(l[3])))
+        if not last or not last[-1][1] or not any(is_field_of_param(x[2][0], 'self', 'start_rx') for x in find_calls(last[-1][0][1], 'Receiver::<T>::changed')):
             ok = False
     rb = [i for i, blk in enumerate(b.blocks) if not blk['cleanup'] and blk['term']['k'] == 'return' and i in b.reachable(0)]
     res.check(ok, 'TABLE', b.path, 'the bootstrap task returns only on the Err edge of start_rx.changed() (start_tx dropped = handler gone)', detail='%d return paths' % len(rets))
